@@ -156,10 +156,11 @@ theorem dkg_index_fits_byte (size : Int) (h : Extracted.Guards.crypto_newDKGComm
   simp [Extracted.Guards.crypto_newDKGCommon_g0] at h
   omega
 
-/-- **no index or slice expression has appeared or changed since the review**: the list regenerated from the
-    source on this run (every `x[i]` / `x[a:b]` on a slice, array or string whose bound can fail at run time, in the
-    three packages, `&x[0]` hand-overs apart) is the reviewed one. A new or edited index expression breaks this lemma
-    and sends the check into its boundary search -/
+/-- **no index or slice expression has appeared since the review**: the table regenerated from the source on this
+    run (per function and operand type, the number of `x[i]` / `x[a:b]` on a slice, array or string whose bound can
+    fail at run time, in the three packages; `&x[0]` hand-overs, map lookups, compile-time-checked bounds and the
+    index variable of a loop over the operand itself apart) is the reviewed one. A new index expression breaks this
+    lemma and sends the check into its boundary search; renaming variables does not -/
 theorem index_sites_exact : Extracted.Hazards.indexSites = Props.C09Audit.auditedIndexSites := by decide +kernel
 
 end Props.C09
